@@ -7,6 +7,7 @@ package main
 //  R6s   gqlerrors.ExtendErrorList / FormatError keep every error and its message/extensions/path
 
 import (
+	"go/constant"
 	"go/token"
 	"strings"
 
@@ -700,6 +701,7 @@ func isUntouchedParam(fn *ssa.Function, v ssa.Value, p *ssa.Parameter) bool {
 func ruleDownstreamErrorPath(r *Run) {
 	const rule = "R6s.path"
 	preserving := map[string]bool{"gqlerrors.ExtendErrorList": true, "gqlerrors.FormatError": true}
+	requestRegion := r.P.CG.ReachableAll([]*ssa.Function{r.P.Fn("pebbles.(*Gateway).Handler")})
 	// sources: Response.Errors converted to the error interface in the queryer
 	var work []ssa.Value
 	seen := map[ssa.Value]bool{}
@@ -737,6 +739,17 @@ func ruleDownstreamErrorPath(r *Run) {
 			case *ssa.Extract:
 				add(x)
 			case *ssa.Store:
+				// packed into the argument list of a variadic call (fmt.Errorf("…%w", err)):
+				// the backing array is sliced and the slice is the argument
+				if ia, ok := x.Addr.(*ssa.IndexAddr); ok && x.Val == v {
+					if arr, ok := ia.X.(*ssa.Alloc); ok {
+						for _, r2 := range *arr.Referrers() {
+							if sl, ok := r2.(*ssa.Slice); ok {
+								add(sl)
+							}
+						}
+					}
+				}
 				// spilled result variable (named results / defer): follow loads of the cell
 				if al, ok := x.Addr.(*ssa.Alloc); ok && x.Val == v {
 					for _, r2 := range *al.Referrers() {
@@ -805,6 +818,11 @@ func ruleDownstreamErrorPath(r *Run) {
 				if !isArg && !(c.IsInvoke() && c.Value == v) {
 					continue
 				}
+				// start-up code (NewGateway wrapping an introspection failure for the embedder)
+				// is not on the way to a client
+				if !requestRegion[x.Parent()] {
+					continue
+				}
 				n++
 				name := ""
 				if sc := c.StaticCallee(); sc != nil {
@@ -839,4 +857,152 @@ func ruleDownstreamErrorPath(r *Run) {
 	}
 	r.AtLeast(rule, "sources (service error lists returned by the queryer)", nSrc, 2)
 	r.AtLeast(rule, "hand-overs of downstream errors", n, 2)
+}
+
+// ruleNodeFieldSignature (R13d.sig): the predicate that recognises the relay lookup field
+// checks every component of its specified signature `node(id: ID!): Node` — the field name,
+// exactly one argument, that argument's name, its type (ID!), and the nullable Node result.
+// A true answer that skips one of them treats some other field of a service as the lookup
+// field: that field then gets no route and is left out of the overlap check.
+func ruleNodeFieldSignature(r *Run) {
+	const rule = "R13d.sig"
+	fn := r.Anchor(rule, "merger.isNodeField")
+	if fn == nil || len(fn.Params) != 1 {
+		return
+	}
+	constStr := func(v ssa.Value) string {
+		if k, ok := v.(*ssa.Const); ok && k.Value != nil && k.Value.Kind() == constant.String {
+			return constant.StringVal(k.Value)
+		}
+		return ""
+	}
+	fieldLoad := func(v ssa.Value, owner, field string) bool {
+		ld, ok := unwrap(v).(*ssa.UnOp)
+		if !ok || ld.Op != token.MUL {
+			return false
+		}
+		fa, ok := ld.X.(*ssa.FieldAddr)
+		return ok && fieldOf(fa) != nil && fieldOf(fa).Name() == field && strings.HasSuffix(namedOf(fa.X.Type()), owner)
+	}
+	type test struct {
+		what string
+		side *ssa.BasicBlock // block entered when the component matches
+		val  ssa.Value       // or: the boolean value that is true when it matches
+	}
+	var tests []test
+	for _, b := range fn.Blocks {
+		for _, ins := range b.Instrs {
+			switch x := ins.(type) {
+			case *ssa.BinOp:
+				if x.Op != token.EQL && x.Op != token.NEQ {
+					continue
+				}
+				what := ""
+				for _, p := range [][2]ssa.Value{{x.X, x.Y}, {x.Y, x.X}} {
+					switch {
+					case fieldLoad(p[0], "ast.FieldDefinition", "Name") && constStr(p[1]) == "node":
+						what = "field name is `node`"
+					case fieldLoad(p[0], "ast.ArgumentDefinition", "Name") && constStr(p[1]) == "id":
+						what = "argument name is `id`"
+					}
+					if c, ok := p[0].(*ssa.Call); ok {
+						if bi, ok := c.Call.Value.(*ssa.Builtin); ok && bi.Name() == "len" && fieldLoad(c.Call.Args[0], "ast.FieldDefinition", "Arguments") && isIntConst(p[1], 1) {
+							what = "exactly one argument"
+						}
+					}
+				}
+				if what == "" {
+					continue
+				}
+				t := test{what: what, val: x}
+				for _, ref := range *x.Referrers() {
+					if iff, ok := ref.(*ssa.If); ok {
+						if x.Op == token.EQL {
+							t.side = iff.Block().Succs[0]
+						} else {
+							t.side = iff.Block().Succs[1]
+						}
+					}
+				}
+				if x.Op == token.NEQ && t.side == nil {
+					continue // a bare `!=` value is true when the component does NOT match
+				}
+				tests = append(tests, t)
+			case *ssa.Call:
+				n := calleeName(&x.Call)
+				what := ""
+				switch {
+				case strings.HasSuffix(n, "merger.isIDType"):
+					what = "argument type is ID!"
+				case strings.HasSuffix(n, "merger.isNullableTypeNamed") && len(x.Call.Args) == 2 && constStr(x.Call.Args[1]) == "Node" && fieldLoad(x.Call.Args[0], "ast.FieldDefinition", "Type"):
+					what = "result type is the nullable Node"
+				}
+				if what == "" {
+					continue
+				}
+				t := test{what: what, val: x}
+				for _, ref := range *x.Referrers() {
+					if iff, ok := ref.(*ssa.If); ok {
+						t.side = iff.Block().Succs[0]
+					}
+				}
+				tests = append(tests, t)
+			}
+		}
+	}
+	// the places where the predicate can answer true
+	type truth struct {
+		blk *ssa.BasicBlock
+		val ssa.Value // non-constant answer, or nil for the constant true
+		pos token.Pos
+	}
+	var truths []truth
+	var collect func(v ssa.Value, blk *ssa.BasicBlock, pos token.Pos, depth int)
+	collect = func(v ssa.Value, blk *ssa.BasicBlock, pos token.Pos, depth int) {
+		if k, ok := v.(*ssa.Const); ok {
+			if k.Value != nil && constant.BoolVal(k.Value) {
+				truths = append(truths, truth{blk, nil, pos})
+			}
+			return
+		}
+		if phi, ok := v.(*ssa.Phi); ok && depth < 6 {
+			for i, e := range phi.Edges {
+				collect(e, phi.Block().Preds[i], pos, depth+1)
+			}
+			return
+		}
+		if ins, ok := v.(ssa.Instruction); ok {
+			blk = ins.Block()
+		}
+		truths = append(truths, truth{blk, v, pos})
+	}
+	for _, ret := range returnsOf(fn) {
+		collect(retVals(ret)[0], ret.Block(), retPos(ret), 0)
+	}
+	want := []string{"field name is `node`", "exactly one argument", "argument name is `id`", "argument type is ID!", "result type is the nullable Node"}
+	for _, w := range want {
+		good := len(truths) > 0
+		where := r.P.pos(fn.Pos())
+		for _, tr := range truths {
+			covered := false
+			for _, t := range tests {
+				if t.what != w {
+					continue
+				}
+				if tr.val != nil && (tr.val == t.val || mustDependOn(tr.val, t.val)) {
+					covered = true
+				}
+				if t.side != nil && len(t.side.Preds) == 1 && (t.side == tr.blk || t.side.Dominates(tr.blk)) {
+					covered = true
+				}
+			}
+			if !covered {
+				good = false
+				where = r.P.pos(tr.pos)
+			}
+		}
+		r.Check(good, rule, fnName(fn), "checks that the "+w, where,
+			"every way the predicate can answer true has passed this test",
+			"isNodeField can answer true without having checked that the "+w+": a service field that merely resembles `node(id: ID!): Node` is taken for the relay lookup field — it gets no route (and is skipped by the overlap check), so it stays in the gateway's schema but cannot be answered")
+	}
 }
